@@ -84,7 +84,12 @@ def checkCsv : P String := do
       | some rs => rs.length
       | none => 0
     let c20 := if st == "panic" then "fail:panic" else "ok"
-    pure s!"c10={c10} c20={c20} corr={corr} nontrivial={if nrec ≥ 2 then 1 else 0} st_status={st} st_std={sst}"
+    -- C01 on an import: whatever is returned is rectangular, stored under own names, Nrows = common length
+    let c01 := match res with
+      | some (f, nr) => if !f.rect? then "fail:not-rectangular"
+                        else if f != [] && nr != (f.nrows : Int) then "fail:nrows-mismatch" else "ok"
+      | none => "ok"
+    pure s!"c01={c01} c10={c10} c20={c20} corr={corr} nontrivial={if nrec ≥ 2 then 1 else 0} st_status={st} st_std={sst}"
   else if kind == "RT" then
     let f ← pFrame
     expect "W"
